@@ -323,8 +323,8 @@ class Lifter:
             nc = norm_cmp(t)
             atoms, c, nop = nc
             # counter vs capacity / zero
-            if self.counter is None and r.kind == 'maplist':
-                # ut_map / ut_set: the index size is the element count
+            if True:
+                # the index size is the element count (RI: |index| == counter)
                 sz = [x for x in atoms if isinstance(x, tuple) and x[0] == 'q' and x[1] == 'size' and x[2] == self.index]
                 if len(sz) == 1 and len(atoms) == 1:
                     k = atoms[sz[0]]
